@@ -35,3 +35,81 @@ def normalize_patches():
         m = importlib.import_module(name)
         P.append((m, "normalize", normalize_stub))
     return P
+
+
+# ----------------------------------------------------------------------------- qhull
+
+try:
+    from scipy.spatial import QhullError
+except ImportError:  # pragma: no cover
+    from scipy.spatial.qhull import QhullError
+
+QHULL_CALLS = []          # records of Delaunay / ConvexHull stub calls on the current path
+QHULL_POLICY = {"fulldim": lambda P: True}
+
+
+def qhull_reset(fulldim=None):
+    QHULL_CALLS.clear()
+    QHULL_POLICY["fulldim"] = fulldim or (lambda P: True)
+
+
+class DelaunayStub:
+    """scipy.spatial.Delaunay contract: find_simplex(b) >= 0  <=>  b in conv(points)   (used by explicit instances);
+    QhullError iff the cloud is not full-dimensional (decided by the case's structural policy); ValueError for 1-D data (as scipy)."""
+
+    def __init__(self, points, qhull_options=None, **kw):
+        if isinstance(points, DelaunayStub):
+            points = points.points
+        P = np.asarray(points)
+        if not symnp._has_sym(P) and symnp.Engine.cur is None:
+            raise symnp.Inconclusive("Delaunay stub used outside a symbolic run")
+        if P.ndim != 2:
+            raise ValueError("Input points array must have 2 dimensions.")
+        if P.shape[1] < 2:
+            raise ValueError("Need at least 2-D data")
+        if not QHULL_POLICY["fulldim"](P):
+            raise QhullError("QH6154 Qhull precision error: Initial simplex is flat (stub: cloud not full-dimensional)")
+        self.points = P.view(SymArray) if P.dtype == object else P
+        self.ndim = P.shape[1]
+        self.npoints = P.shape[0]
+
+    def find_simplex(self, xi, **kw):
+        B = np.asarray(xi)
+        single = B.ndim == 1
+        B2 = np.atleast_2d(B)
+        e = E()
+        k = len(QHULL_CALLS)
+        flags = [z3.Bool(f"inhull!{k}_{i}") for i in range(B2.shape[0])]
+        QHULL_CALLS.append(dict(kind="delaunay", P=self.points, B=B2, flags=flags))
+        r = np.empty(B2.shape[0], dtype=object)
+        for i, f in enumerate(flags):
+            r[i] = S(z3.If(f, z3.RealVal(0), z3.RealVal(-1)))
+        r = r.view(SymArray)
+        return r[0] if single else r
+
+
+def qhull_patches(delaunay_modules=("dreye.api.convex",), hull_modules=()):
+    P = []
+    for name in delaunay_modules:
+        m = importlib.import_module(name)
+        P.append((m, "Delaunay", DelaunayStub))
+    return P
+
+
+def conv_weights_instance(prefix, P, b):
+    """fresh lambda >= 0, sum = 1, sum lambda_c P_c = b  (the existential of 'b in conv(P)' skolemised)"""
+    P = np.asarray(P); b = np.asarray(b)
+    lam = [z3.Real(f"{prefix}_{c}") for c in range(P.shape[0])]
+    f = [l >= 0 for l in lam] + [z3.Sum(lam) == 1]
+    for d in range(P.shape[1]):
+        f.append(z3.Sum([lam[c] * lift(P[c, d]) for c in range(P.shape[0])]) == lift(b[d]))
+    return lam, z3.And(f)
+
+
+def conv_formula(lam, P, b):
+    """formula: the given weights are convex weights expressing b over the rows of P"""
+    P = np.asarray(P); b = np.asarray(b)
+    f = [lift(l) >= 0 for l in lam] + [z3.Sum([lift(l) for l in lam]) == 1]
+    for d in range(P.shape[1]):
+        f.append(z3.Sum([lift(lam[c]) * lift(P[c, d]) for c in range(P.shape[0])]) == lift(b[d]))
+    return z3.And(f)
